@@ -286,8 +286,12 @@ def run_metric_plan(plan):
                     keys = list(pred.keys())
                     vals = list(pred.values())
                     r_ = op["rot"] % len(keys)
-                    pred = {k: vals[(j + r_) % len(keys)] for j, k in enumerate(keys)}
-                    if op.get("other_y"):
+                    if op.get("other_y") or op["tag"] % 2:
+                        # same values in the same positions, labels permuted (and inserted in another order)
+                        pred = {keys[(j + r_) % len(keys)]: vals[j] for j in range(len(keys))}
+                    else:
+                        pred = {k: vals[(j + r_) % len(keys)] for j, k in enumerate(keys)}
+                    if op.get("other_y") and op["tag"] % 3 == 0:
                         y = gen_pair(info, H(seed, "pair", op["tag"]))[0]
                     probe("permuted_repeat")
                 elif "like" in op:
